@@ -3,9 +3,15 @@
 
 #[verifier::external_body]
 pub struct Sha3_256 { _p: [u64; 25] }
+/// ghost view: the ordered list of chunks fed to `update`/`chain` so far (the hashed string is their concatenation)
 impl View for Sha3_256 {
-    type V = Seq<u8>;
-    uninterp spec fn view(&self) -> Seq<u8>;
+    type V = Seq<Seq<u8>>;
+    uninterp spec fn view(&self) -> Seq<Seq<u8>>;
+}
+pub open spec fn flatten(t: Seq<Seq<u8>>) -> Seq<u8>
+    decreases t.len()
+{
+    if t.len() == 0 { Seq::<u8>::empty() } else { flatten(t.drop_last()) + t.last() }
 }
 /// SHA3-256 of a byte string (32 bytes)
 pub uninterp spec fn sha3_256(t: Seq<u8>) -> Seq<u8>;
@@ -29,13 +35,13 @@ impl View for Digest32 {
 
 impl Sha3_256 {
     #[verifier::external_body]
-    pub fn new() -> (r: Sha3_256) ensures r@ == Seq::<u8>::empty() { unimplemented!() }
+    pub fn new() -> (r: Sha3_256) ensures r@ == Seq::<Seq<u8>>::empty() { unimplemented!() }
     #[verifier::external_body]
-    pub fn update<B: AsRef<[u8]>>(&mut self, bytes: B) ensures final(self)@ == old(self)@ + bytes_of(bytes) { unimplemented!() }
+    pub fn update<B: AsRef<[u8]>>(&mut self, bytes: B) ensures final(self)@ == old(self)@.push(bytes_of(bytes)) { unimplemented!() }
     #[verifier::external_body]
-    pub fn chain<B: AsRef<[u8]>>(self, bytes: B) -> (r: Sha3_256) ensures r@ == self@ + bytes_of(bytes) { unimplemented!() }
+    pub fn chain<B: AsRef<[u8]>>(self, bytes: B) -> (r: Sha3_256) ensures r@ == self@.push(bytes_of(bytes)) { unimplemented!() }
     #[verifier::external_body]
-    pub fn finalize(self) -> (r: Digest32) ensures r@ == sha3_256(self@), r@.len() == 32 { unimplemented!() }
+    pub fn finalize(self) -> (r: Digest32) ensures r@ == sha3_256(flatten(self@)), r@.len() == 32 { unimplemented!() }
 }
 //@broadcast axiom_bytes_of_arr32
 //@broadcast axiom_bytes_of_arr48
@@ -45,5 +51,5 @@ impl Sha3_256 {
 //@broadcast axiom_bytes_of_slice
 //@broadcast axiom_bytes_of_vec
 
-/// the challenge scalar derived from a transcript: Scalar::from_raw of the four little-endian words of SHA3-256(t)
-pub uninterp spec fn chal(t: Seq<u8>) -> Scalar;
+/// the challenge scalar derived from a transcript: Scalar::from_raw of the four little-endian words of SHA3-256(flatten(t))
+pub uninterp spec fn chal(t: Seq<Seq<u8>>) -> Scalar;
